@@ -3,6 +3,7 @@ One step of the (guarded) reader on each kind of segment of a flattened document
 composing runs.
 -/
 import Pyx12Verif.Proofs.EnvelopeHL
+import Pyx12Verif.Proofs.EnvelopeInt
 
 namespace Pyx12Verif.Envelope
 
